@@ -126,6 +126,7 @@ def conclude(prop, tier, seed, results, extras, wall, partial=False):
                 if len(samples) < 3 and "value" in o["name"]:
                     samples.append({"obligation": o["name"], "status": "proved", "backend": o["backend"]})
             elif o["status"] == "known":
+                nob -= 1          # carved out: reported as a known finding, not as an obligation of the proof
                 kid = o.get("known_id")
                 kk = [k for k in kf.get("known", []) if k["id"] == kid]
                 if kk:
